@@ -78,10 +78,11 @@ def noUnusedVariables (d : Doc) : Prop := ∀ o x, DefinedIn d o x → UsedIn d 
 
 /-! ### positions of variable usages (5.8.5) -/
 
-/-- position of the items of a list value: py-gql unwraps the expected type down to its NAMED type
-    (`unwrap_type`), whatever the nesting; list items never have a default -/
+/-- position of the items of a list value: the ITEM type of the list type expected (`TI.itemOf`: one non-null
+    wrapper and one list level removed; before proposed_fixes/C06-enter-list-value.patch py-gql unwrapped down to the
+    NAMED type, whatever the nesting); list items never have a default -/
 def listItemPos (s : SchemaD) (p : Usage) : Usage :=
-  { inputType := TI.inOnly s (p.inputType.map fun x => Ty.named x.base), locDefault := false }
+  { inputType := TI.inOnly s (p.inputType.map TI.itemOf), locDefault := false }
 
 /-- position of the value of field `name` of an input-object value -/
 def objFieldPos (s : SchemaD) (p : Usage) (name : String) : Usage :=
